@@ -476,7 +476,50 @@ const STATIC_NAMES: &[&str] = &[
     // names that collide with url directory prefixes (`to/…`, `pkg/1.0/…`, `v1.2/x/…`): a hashed `to-<hash>.css`
     // sorts before `to/…` in byte order ('-' < '.' < '/'), after it in path-component order
     "to.css", "to-x.css", "to x.css", "pkg.js", "pkg-1.js", "v1.2.css", "to", "to.", "inner.css", "inner-a.css",
+    // punctuation in the extension
+    "index.html~", "hello.c++", "7.tar-gz", "notes.txt#1", "a.b c", "x.y_z", "x.(1)", "q.a'b", "w.$$", "e.@", "r.{}", "t.[0]", "y.%20", "u.=", "i.!",
 ];
+
+/// a random file name over printable ASCII (no `/`), with a dot somewhere in the middle
+fn rand_ascii_name(r: &mut Rng) -> String {
+    let ch = |r: &mut Rng| -> char {
+        loop {
+            let c = (0x20 + r.below(0x5f)) as u8 as char;
+            if c != '/' {
+                return c;
+            }
+        }
+    };
+    let mut s = String::new();
+    for _ in 0..r.range(1, 3) {
+        s.push(ch(r));
+    }
+    s.push('.');
+    for _ in 0..r.range(0, 3) {
+        s.push(ch(r));
+    }
+    s
+}
+
+fn names_scenario(r: &mut Rng) -> Scenario {
+    // many names through add_file_data / add_file_as (no file needs to exist for either)
+    let mut script = Vec::new();
+    let mut seen = BTreeSet::new();
+    for _ in 0..r.range(10, 40) {
+        let n = rand_ascii_name(r);
+        if n == ".." || !seen.insert(n.clone()) {
+            continue;
+        }
+        if r.chance(1, 4) {
+            script.push(SOp::A(format!("virtual/{n}"), format!("{}{n}", r.pick(&["to/", "", "v1.2/x/"]))));
+        } else {
+            script.push(SOp::B(format!("virtual/{n}"), rand_content(r)));
+        }
+    }
+    Scenario { kind: "names", steps: vec![Step::Run], script, twin: 0 }
+}
+const _UNUSED: &[&str] = &[];
+
 
 fn rand_content(r: &mut Rng) -> Vec<u8> {
     match r.below(8) {
@@ -654,6 +697,12 @@ pub fn scenarios(args: &crate::Args) -> Vec<Scenario> {
             } else {
                 out.push(s);
             }
+        }
+    }
+    if want("statics") || want("names") {
+        let mut r = Rng::new(args.seed, "script-names");
+        for _ in 0..(args.n / 4).max(2) {
+            out.push(names_scenario(&mut r));
         }
     }
     if want("tree") {
